@@ -484,6 +484,7 @@ func (r *TableHTMLRenderer) renderTableCell(
 	}
 	if entering {
 		_, _ = fmt.Fprintf(w, "<%s", tag)
+		styleRendered := false
 		if n.Alignment != ast.AlignNone {
 			amethod := r.TableConfig.TableCellAlignMethod
 			if amethod == TableCellAlignDefault {
@@ -499,29 +500,45 @@ func (r *TableHTMLRenderer) renderTableCell(
 					_, _ = fmt.Fprintf(w, ` align="%s"`, n.Alignment.String())
 				}
 			case TableCellAlignStyle:
-				v, ok := n.AttributeString("style")
-				var cob util.CopyOnWriteBuffer
-				if ok {
-					cob = util.NewCopyOnWriteBuffer(v.([]byte))
-					cob.AppendByte(';')
+				// The style is written here, merged with a style attribute of the
+				// node if there is one, without storing it back into the node:
+				// rendering must not alter the tree.
+				_, _ = w.WriteString(` style="`)
+				if v, ok := n.AttributeString("style"); ok {
+					if b, ok := v.([]byte); ok {
+						_, _ = w.Write(util.EscapeHTML(b))
+						_ = w.WriteByte(';')
+					}
 				}
-				style := fmt.Sprintf("text-align:%s", n.Alignment.String())
-				cob.AppendString(style)
-				n.SetAttributeString("style", cob.Bytes())
+				_, _ = fmt.Fprintf(w, `text-align:%s"`, n.Alignment.String())
+				styleRendered = true
 			}
 		}
 		if n.Attributes() != nil {
+			var filter util.BytesFilter = TableThCellAttributeFilter // <th>
 			if tag == "td" {
-				html.RenderAttributes(w, n, TableTdCellAttributeFilter) // <td>
-			} else {
-				html.RenderAttributes(w, n, TableThCellAttributeFilter) // <th>
+				filter = TableTdCellAttributeFilter // <td>
 			}
+			if styleRendered {
+				filter = exceptStyleFilter{filter}
+			}
+			html.RenderAttributes(w, n, filter)
 		}
 		_ = w.WriteByte('>')
 	} else {
 		_, _ = fmt.Fprintf(w, "</%s>\n", tag)
 	}
 	return gast.WalkContinue, nil
+}
+
+// exceptStyleFilter is a BytesFilter that rejects the style attribute,
+// which renderTableCell has already written.
+type exceptStyleFilter struct {
+	util.BytesFilter
+}
+
+func (f exceptStyleFilter) Contains(b []byte) bool {
+	return string(b) != "style" && f.BytesFilter.Contains(b)
 }
 
 type table struct {
